@@ -81,6 +81,7 @@ type DB struct {
 	compPerErrC      chan error
 	compErrSetC      chan error
 	compWriteLocking bool
+	compReadOnly     int32 // set once the DB has been switched to read-only
 	compStats        cStats
 	memdbMaxLevel    int // For testing.
 
